@@ -88,6 +88,14 @@ CLAIMED = {
         "no clock/RNG/environment/cwd/identity value is reachable from the generator; serialisers sort keys.",
         "Assumes dict / protobuf container iteration is insertion-ordered and third-party serialisers are deterministic.",
         "DESIGN.md 4/C10"),
+    "C15": (
+        "ast pattern + def-use rules on API.gapic_metadata / legacy flattening; renderer agreement with client skeletons; fix-up table slots",
+        "Decides the transport/class table, that every service x client x rpc is listed once (sorted, unfiltered), that the library "
+        "method name is to_snake_case(client_method_name) - the very renderer the client templates use for `def` - on classes named "
+        "by Service.client_name / async_client_name, the package names, and that the fix-up table lists every request field of every "
+        "rpc with required fields first (partition keeps order).",
+        "Trusted: protobuf MessageToJson; Jinja `sort`/`unique` filters.",
+        "DESIGN.md 4/C15"),
     "C18": (
         "branch-wise ast pattern rules on the validator + shape/dominance rules on the inlined population block",
         "Decides that each AIP-4235 violation (duplicate, unknown, streaming, nested/missing, non-string, required, non-UUID4) has "
